@@ -129,12 +129,19 @@ doc`,
     },
     @calculatedFrom("VSUM16") u16 Ck `check
 sum`,
+    u32 Ck2 @calculatedFrom("VSUM32") `second
+  check`,
+    One Extra `an object
+with a doc`,
 }
 packet One {
     u16 v,
 }
 """
 
-DOCS = {"rich": RICH, "second": SECOND, "minimal": MINIMAL, "special": SPECIAL, "multiline": MULTILINE}
+# nothing but comments: valid (the grammar derives the empty packet list), and every comment must survive
+COMMENTS = "// first line\n// second line %d {\n\n// after a blank line\n"
+
+DOCS = {"rich": RICH, "second": SECOND, "minimal": MINIMAL, "special": SPECIAL, "multiline": MULTILINE, "comments": COMMENTS}
 
 # compile-able? (rich uses @tag and MetaData refs; all three are accepted by the compiler)
